@@ -298,24 +298,45 @@ def task_shape(shape, second=0, seed=0):
                     out[d.name()] = v
             return out
 
-        dat.write('m1.dat', meshfile, **kw)
+        class Raised(Exception): pass
+        def guarded(what, fn):
+            """a write or read that raises on a valid model is a failed obligation"""
+            try: return fn()
+            except sym.EngineAbort: raise
+            except Exception as ex:
+                r, m = c.reachable()
+                c.prove(False, 'exception: %s raised %s' % (what, type(ex).__name__))
+                if r == 'sat': c.failures[-1]['model'] = m
+                fl = c.failures[-1]
+                failures.append(dict(key='%s/exception-%s-%s' % (tag, what.replace(' ', '-'), type(ex).__name__),
+                                     what='%s raised %s: %s [%s]' % (what, type(ex).__name__, str(ex)[:100], tag),
+                                     replay=dict(shape=shape, model=model_dump(fl['model']))))
+                raise Raised()
+        try:
+            return body(dat, info, meshfile, kw, ob, flush, guarded, model_dump)
+        except Raised:
+            return 'checked'
+
+    def body(dat, info, meshfile, kw, ob, flush, guarded, model_dump):
+        c = sym.ctx()
+        guarded('first write', lambda: dat.write('m1.dat', meshfile, **kw))
         sections_written = list(dat._sections)
-        dat2 = T.t2data('m1.dat', meshfile)
+        dat2 = guarded('first read', lambda: T.t2data('m1.dat', meshfile))
         cmp = Cmp(c, ob)
         if not samples:
             samples.append(dict(shape=tag, sections=sections_written, file=[repr(l)[:120] for l in fs.files['m1.dat'][:6]]))
         compare(cmp, dat, dat2, shape)
         flush()
-        dat2.write('m2.dat', 'MESH2' if meshfile else '', **kw)
+        guarded('second write', lambda: dat2.write('m2.dat', 'MESH2' if meshfile else '', **kw))
         ob(files_equal(fs.files['m1.dat'], fs.files['m2.dat'], True), 'rewrite: second data file equals the first up to trailing blanks')
         if meshfile: ob(files_equal(fs.files['MESH'], fs.files['MESH2'], True), 'rewrite-mesh: second MESH file equals the first up to trailing blanks')
         if shape.get('xp'): ob(files_equal(fs.files['m1.pdat'], fs.files['m2.pdat'], True), 'rewrite-xp: second extra-precision file equals the first')
         if shape.get('cycles', 3) >= 3:
-            dat3 = T.t2data('m2.dat', 'MESH2' if meshfile else '')
+            dat3 = guarded('second read', lambda: T.t2data('m2.dat', 'MESH2' if meshfile else ''))
             flush()
             compare(cmp, dat2, dat3, shape, exact=True, where='cycle2 ')
             flush()
-            dat3.write('m3.dat', 'MESH3' if meshfile else '', **kw)
+            guarded('third write', lambda: dat3.write('m3.dat', 'MESH3' if meshfile else '', **kw))
             ob(files_equal(fs.files['m2.dat'], fs.files['m3.dat'], False), 'cycle: third data file equals the second byte for byte')
             if meshfile: ob(files_equal(fs.files['MESH2'], fs.files['MESH3'], False), 'cycle-mesh: third MESH file equals the second')
         flush()
